@@ -1,6 +1,10 @@
 package main
 
 var checks = []checkDef{
+	{ID: "C01", Level: "fault_enumeration", Pkg: "server", Run: "^TestVfC01$", TimePatch: true, Batches: [2]int{4, 30}, Timeout: [2]int{300, 900},
+		Required: []string{"ack_seq", "gapless_acks", "data_seq_agrees", "live_order", "history_seq_agrees", "desc_seq_agrees", "store_seq", "linearizable", "fault_point", "crash_point", "restart_monotonic", "p2p_unsub_resub_across_reload", "failed_publish_consumes_no_number"},
+		Rule:     "concurrent-publisher scenarios (seeded: topic kind grp/chn/p2p/sys, 2-3 users x 1-2 sessions, optional root session publishing on behalf of a user, 1-2 bursts with leave-all/idle-unload/re-attach in between, store-call delays) checked for unique+gapless acks, ack=data=history=desc seq, per-session order, MessageSave sequence and porcupine linearizability against an append-only-log model; plus enumeration of every store call of a publish made to fail (grp/p2p x attachments x author reader) and a real SIGKILL before/after each store call of a publish with restart from the snapshot. Distinct = distinct scenario shape hash, distinct store-call interleaving hash, each fault point, each crash point.",
+		Assume:   []string{"vfmem in-memory adapter mirrors the MySQL adapter contract (DESIGN appendix A)", "SQL text of the real adapters is not exercised"}},
 	{ID: "C05", Level: "exploration", Pkg: "server/store/types", Run: "^TestVfC05$", Batches: [2]int{1, 1}, Timeout: [2]int{300, 900},
 		Required: []string{"delta_pair", "canonical_roundtrip", "law_unknown_rejected", "law_delta_apply", "law_unknown_rejected_delta"},
 		Rule:     "exhaustive: all 256x256 (old,new) permission pairs through Delta/ApplyDelta/ApplyMutation; all 256 sets through text/JSON/SQL round trips in several spellings; every string of length <=4 (quick) / <=5 (thorough) over the alphabet JRWPASDONjrwo+-xZ! plus random longer ones, compared with an independent reference parser on the laws the property states. A distinct case = one permission set, the pair space, or the string space of one length bound.",
